@@ -174,7 +174,15 @@ func (x *Exec) exec(st *State, fr *Frame, in ssa.Instruction) []*State {
 				env = p.Ref
 			}
 		}
-		fv := &FuncV{Fn: IntC(int64(x.ld.funcID(fn))), Env: env}
+		target := fn
+		if strings.HasPrefix(fn.Synthetic, "bound method wrapper") && fn.Object() != nil {
+			if tf, ok := fn.Object().(*types.Func); ok {
+				if real := x.ld.prog.FuncValue(tf); real != nil {
+					target = real
+				}
+			}
+		}
+		fv := &FuncV{Fn: IntC(int64(x.ld.funcID(target))), Env: env}
 		x.ld.closureBindings[fv] = bs
 		fr.regs[v] = fv
 	case *ssa.Range:
